@@ -352,7 +352,28 @@ func (e *c16Env) roundTrip(label string, app *simapp.SimApp, ctx sdk.Context, mo
 		}
 	}
 	// model cases
-	e.addStore(fmt.Sprintf("C16Store %s %s %s", c16CoqStore(rt.Orig), coqBool(rt.Exported), c16CoqStore(rt.Imp)),
+	// the imported store is handed over as its difference from the original one (smaller literals)
+	var lostKeys []string
+	var changedOrNew [][2]string
+	{
+		mo := map[string]string{}
+		for _, kv := range rt.Orig {
+			mo[kv[0]] = kv[1]
+		}
+		mi := map[string]bool{}
+		for _, kv := range rt.Imp {
+			mi[kv[0]] = true
+			if v, ok := mo[kv[0]]; !ok || v != kv[1] {
+				changedOrNew = append(changedOrNew, kv)
+			}
+		}
+		for _, kv := range rt.Orig {
+			if !mi[kv[0]] {
+				lostKeys = append(lostKeys, hxS(kv[0]))
+			}
+		}
+	}
+	e.addStore(fmt.Sprintf("C16StoreD %s %s %s %s", c16CoqStore(rt.Orig), coqBool(rt.Exported), coqList(lostKeys), c16CoqStore(changedOrNew)),
 		map[string]any{"kind": "store", "case": label, "diff": rt.Diff, "orig_keys": c16KeysHex(rt.Orig)})
 	if rt.Exported && (len(origApps) > 0 || len(impApps) > 0) {
 		e.addStore(fmt.Sprintf("C16Apps %s %s", c16CoqStore(origApps), c16CoqStore(impApps)),
@@ -683,7 +704,12 @@ func (tw *c16Twin) compare(fromA, fromB int) {
 			e.rep.Evaluations++
 			e.rep.Count("continuation:" + x.Op)
 			if x.OK != y.OK {
-				e.rep.Fail("C16:continuation-differs", "the same message is "+c16Verdict(x.OK)+" by the original chain and "+c16Verdict(y.OK)+" by the re-imported chain", map[string]any{"case": tw.name, "step": i, "op": x.Op, "chain": x.Chain})
+				in := map[string]any{"case": tw.name, "step": i, "op": x.Op, "chain": x.Chain, "original_ok": x.OK, "reimported_ok": y.OK, "reimported_err": c16Short(y.Err)}
+				if tw.lostTraces && tw.reimported[x.Chain] && (x.Op == "nft-send" || x.Op == "mt-send") && x.OK && !y.OK {
+					tw.demoTraces = append(tw.demoTraces, in)
+				} else {
+					e.rep.Fail("C16:continuation-differs", "the same message is "+c16Verdict(x.OK)+" by the original chain and "+c16Verdict(y.OK)+" by the re-imported chain", in)
+				}
 			}
 			continue
 		}
@@ -896,13 +922,34 @@ func (tw *c16Twin) finish() {
 		e.rep.Count("demonstrated:voucher-stuck-after-reimport")
 	}
 	var steps []string
+	first := len(tw.b.steps) // index of the first re-import: the history before it is compared by verdict only
+	for k := range tw.marks {
+		if k < first {
+			first = k
+		}
+	}
 	for k, s := range tw.b.steps {
 		if m, ok := tw.marks[k]; ok {
 			steps = append(steps, m)
 		}
-		if tw.ab != nil {
+		light := ""
+		if k < first && k < len(tw.b.Descs) {
+			sep := ", mkObs "
+			if tw.ab != nil {
+				sep = ", mkAObs "
+			}
+			if i := strings.Index(s, sep); i > 0 {
+				light = s[1:i] + " " + coqBool(tw.b.Descs[k].OK)
+			}
+		}
+		switch {
+		case light != "" && tw.ab != nil:
+			steps = append(steps, "SAppL ("+light[:strings.LastIndex(light, " ")]+") "+coqBool(tw.b.Descs[k].OK))
+		case light != "":
+			steps = append(steps, "SNetL ("+light[:strings.LastIndex(light, " ")]+") "+coqBool(tw.b.Descs[k].OK))
+		case tw.ab != nil:
 			steps = append(steps, "SAppP "+s)
-		} else {
+		default:
 			steps = append(steps, "SNetP "+s)
 		}
 	}
